@@ -172,6 +172,10 @@ func runC10(c *core.Ctx) {
 		c.Fail("C10.R1", "deleteExpiredTokens/by-expiry", setAuth.Pos(), "no expiry purge of the token cache found (neither a helper nor an inline slices.DeleteFunc over accessTokens)")
 	}
 	_ = inlinePurgeOK
+	if purge != nil {
+		purgeExaminesEveryToken(c, "C10.R1", []*ssa.Function{purge})
+	}
+
 	// containsGuard: at block b, `T.scope.Contains(<parameter pi of fn>)` holds for the cached token T
 	containsGuard := func(b *ssa.BasicBlock, T ssa.Value, fn *ssa.Function, pi int) bool {
 		for _, cd := range facts.CondsAt(b) {
